@@ -11,7 +11,11 @@ RULE = ("--rate strings from a grammar (count classes 1, small, mid, large, huge
         "real clock), judged against the (count, window) the raw string denotes, computed exactly by the check; per limiter 2..120 Take calls on a fake clock: serial "
         "caller (gaps: back-to-back, around perRequest, long idle) or fully scripted readings (also backwards); "
         "wrapper op sequences (mixed / reads-only / writes-only / scans-only) with a counting limiter; composed "
-        "sender+receiver runs; application-engine runs on the real clock. Non-trivial = limiter run with at least "
+        "sender+receiver runs; application-engine runs on the real clock; application-engine runs whose probes fail as "
+        "scripted (refused, timeout, reset, unreachable, deadline, generic, EMFILE, ENFILE, EADDRNOTAVAIL, ENOBUFS; one to "
+        "three bursts of 18..47 failures at seed-chosen positions, mixed bursts, isolated failures, all failing; 1..8 "
+        "workers, 72..128 probes), each once with the real limiter on the real clock (probe starts) and once with a "
+        "counting limiter (Take / probe-start order). Non-trivial = limiter run with at least "
         "12 calls or a wrapper/engine run with at least one probe; distinct by (kind, rate string, inputs)")
 
 CODES = {1: "the real limiter's (clock reading, returned time, sleep) sequence differs from the model",
@@ -144,9 +148,75 @@ def spec_pipe(o):
     return None
 
 
+ERR_NAMES = {".": "success", "r": "connection refused", "t": "i/o timeout", "g": "generic error", "x": "connection reset",
+             "u": "host unreachable", "c": "deadline exceeded", "M": "EMFILE", "N": "ENFILE", "A": "EADDRNOTAVAIL", "B": "ENOBUFS"}
+
+
+def _outcomes(script, i, j):
+    """Outcomes of the probes started i-th .. j-th (0-based, inclusive), run-length encoded."""
+    out, seg = [], script[i:j + 1]
+    k = 0
+    while k < len(seg):
+        e = k
+        while e < len(seg) and seg[e] == seg[k]:
+            e += 1
+        out.append("%dx %s" % (e - k, ERR_NAMES.get(seg[k], seg[k])))
+        k = e
+    return ", ".join(out)
+
+
+def spec_eng_errors(o):
+    """Application engine whose probes fail as scripted (kind eng, classes eng/probe-errors*).  The judge is the property
+    alone -- pacing of probe STARTS and one charge per probe before it starts -- never the class of the error."""
+    script, p = o.get("script") or "", per_request(o)
+    if o["scans"] != o["m"]:
+        return "%d targets, %d probes started (outcomes %s)" % (o["m"], o["scans"], _outcomes(script, 0, len(script)))
+    if o["class"].startswith("eng/probe-errors-charged"):
+        takes = probes = 0
+        for k, v in o.get("log") or []:
+            if k == 0:
+                takes += 1
+            elif k == 3:
+                probes += 1
+                if probes > takes:
+                    return ("application scan, %d workers, counting limiter, probe outcomes in start order [%s]: the probe "
+                            "started %d-th (the probe before it: %s) began when the limiter had been charged only %d times: a probe "
+                            "started without its own Take" % (o["workers"], _outcomes(script, 0, len(script) - 1), probes,
+                                                              ERR_NAMES.get(script[v - 1:v], "the first probe") if v else "no probe",
+                                                              takes))
+        if takes != probes or o.get("takes") != takes:
+            return ("application scan, %d workers, counting limiter, probe outcomes in start order [%s]: %d probes were "
+                    "charged %d times to the limiter (limiter counted %s)"
+                    % (o["workers"], _outcomes(script, 0, len(script) - 1), probes, takes, o.get("takes")))
+        return None
+    ts = o["starts"]
+    for j, t in enumerate(ts):
+        if t < (j - SLACK) * p:
+            return ("application scan --rate %s, %d workers, probe outcomes in start order [%s]: probe number %d started "
+                    "%d ns after the scan began; the rate allows no less than (%d-%d)*%d = %d ns"
+                    % (o["rate_str"], o["workers"], _outcomes(script, 0, j), j + 1, t, j, SLACK, p, (j - SLACK) * p))
+    # every window of consecutive probe starts; three more intervals for the delay between Take returning in a worker and
+    # the probe start being recorded (concurrent workers, real clock), as in the other engine stages
+    best = None
+    for i in range(len(ts)):
+        for j in range(i + 1, len(ts)):
+            need = (j - i - SLACK - 3) * p
+            if ts[j] - ts[i] < need and (best is None or need - (ts[j] - ts[i]) > best[0]):
+                best = (need - (ts[j] - ts[i]), i, j)
+    if best:
+        _, i, j = best
+        return ("application scan --rate %s, %d workers: the %d consecutive probes started %d-th..%d-th (outcomes %s) began "
+                "within %d ns; the rate allows no less than (%d-1-%d)*%d = %d ns"
+                % (o["rate_str"], o["workers"], j - i + 1, i + 1, j + 1, _outcomes(script, i, j), ts[j] - ts[i], j - i + 1,
+                   SLACK, p, (j - i - SLACK) * p))
+    return None
+
+
 def spec_eng(o):
     if o.get("err"):
         return o["err"]
+    if (o.get("class") or "").startswith("eng/probe-errors"):
+        return spec_eng_errors(o)
     if o.get("class") == "eng/cancel-while-waiting":
         # the scan was interrupted (context cancelled, Ctrl-C) while more workers than the burst allowance waited in the
         # limiter: every probe the engine still starts is paced like all others
@@ -562,9 +632,9 @@ def report(ctx, o, why, args):
     ctx.findings.append({"key": key_of(o), "what": why, "replay": path})
 
 
-def run_harness(ctx, name, seed, n, wrap, pipe, eng, k=120, timeout=600, frac=40):
+def run_harness(ctx, name, seed, n, wrap, pipe, eng, k=120, timeout=600, frac=40, engerr=4):
     ok, _ = ctx.harness_run("c15", ["-out", name, "-seed", seed, "-n", n, "-wrap", wrap, "-pipe", pipe, "-eng", eng,
-                                    "-k", k, "-frac", frac], timeout=timeout)
+                                    "-k", k, "-frac", frac, "-engerr", engerr], timeout=timeout)
     return ctx.read_jsonl(os.path.join(ctx.work, name)) if ok else []
 
 
@@ -601,7 +671,7 @@ def run(ctx):
     args = {"seed": ctx.seed, "k": 120}
     if ctx.harness_build("c15"):
         rows = run_harness(ctx, "cases.jsonl", ctx.seed, 200 if quick else 5000, 60 if quick else 1500,
-                           6 if quick else 40, 3 if quick else 7, frac=40 if quick else 1000)
+                           6 if quick else 40, 3 if quick else 7, frac=40 if quick else 1000, engerr=4 if quick else 24)
     for o in rows:
         if o["kind"] == "chunk":
             got = [x[1] for x in o["obs"]]
@@ -629,6 +699,16 @@ def run(ctx):
             ctx.count(cls, ("lim", o["rate_str"], tuple(o["in"])), nontrivial=len(o["obs"]) >= 12,
                       sample={"rate": o["rate_str"], "count": o["rate"], "window_ns": o["per"], "mode": o["mode"],
                               "calls": len(o["obs"]), "first_calls(now,grant,slept)": o["obs"][:4]})
+        elif o["kind"] == "eng" and o["class"].startswith("eng/probe-errors"):
+            # probes that fail as scripted: class = stage / shape of the script / error classes that occur in it
+            sc = o.get("script") or ""
+            kinds = ("local-resource" if set(sc) & set("MNAB") else "") + ("+remote" if set(sc) & set("rtgxuc") else "")
+            ctx.count("%s:%s:%s" % (o["kind"], o["class"], kinds.strip("+") or "none"),
+                      ("eng", o["id"], sc, o["rate_str"], o["workers"], json.dumps(o.get("starts") or o.get("log"))),
+                      nontrivial=bool(o.get("scans")) and any(c != "." for c in sc),
+                      sample={"rate": o["rate_str"], "workers": o["workers"], "probes": o["scans"],
+                              "outcomes_in_start_order": _outcomes(sc, 0, len(sc) - 1), "takes": o.get("takes"),
+                              "errors_reported": o.get("reads"), "first_starts_ns": (o.get("starts") or [])[:6]})
         else:
             ctx.count("%s:%s" % (o["kind"], o["class"]), (o["kind"], o["id"], json.dumps(o.get("ops") or o.get("starts") or o.get("sent"))),
                       nontrivial=bool(o.get("ops") or o.get("scans") or o.get("sent")),
@@ -697,7 +777,7 @@ def run(ctx):
         # a proof or a tie broke: look harder for a concrete input on which the real code breaks the property
         sd = ctx.seed + 101
         a2 = {"seed": sd, "k": 400}
-        more = run_harness(ctx, "search.jsonl", sd, 600, 300, 10, 7, k=400, timeout=300, frac=400)
+        more = run_harness(ctx, "search.jsonl", sd, 600, 300, 10, 7, k=400, timeout=300, frac=400, engerr=12)
         if not judge(ctx, [o for o in more if o["kind"] not in ("lim", "frac") or o.get("parse_ok")], a2):
             deep = deep_stage(ctx)
             for o in deep:
@@ -735,6 +815,7 @@ def replay(ctx, path):
         return 1 if why else 0
     ok, out = ctx.harness_run("c15", ["-out", "one.jsonl", "-seed", i["seed"], "-k", i["k"], "-n", 1000000, "-wrap", 1000000,
                                       "-pipe", 1000, "-eng", 7, "-frac", i["id"] + 1 if i["kind"] == "frac" else 1,
+                                      "-engerr", i["id"] % 100 + 1 if i["kind"] == "eng" and i["id"] >= 300 else 0,
                                       "-one", "%s,%d" % (i["kind"], i["id"])], timeout=300)
     if not ok:
         print(out)
